@@ -92,6 +92,11 @@ func Loop(r lineReader, p Parser, vm *vm.Type, doOut bool) {
 			input = ""
 		}
 	}
+
+	// text that is still open at the end of the input is for the parser to report
+	if input != "" {
+		processInput(input, p, vm, doOut)
+	}
 }
 
 // complete reports whether input leaves no block, array literal or string
